@@ -132,6 +132,15 @@ func (f *Frame) instr(ins ssa.Instruction) {
 		default:
 			f.abort("IndexAddr on %s", x.X.Type())
 		}
+	case *ssa.Index:
+		if isString(x.X.Type()) {
+			st := f.term(x.X)
+			i := f.term(x.Index)
+			f.panicSite(not(and(app("<=", "0", i), app("<", i, app("slen", st)))), "safety.index", f.srcExpr(x, "string index"), f.pos(x))
+			f.vals[x] = S{app("sat", st, i), x.Type()}
+		} else {
+			f.abort("indexing of an array value is not modelled")
+		}
 	case *ssa.UnOp:
 		f.unop(x)
 	case *ssa.BinOp:
